@@ -28,6 +28,7 @@ What the translation does, and nothing more:
   e[:, jnp.newaxis, …]      → e     (broadcasting only: the definitions are per pixel and per component)
   float(e)                  → e
   A.shape[i]                → a fresh scalar parameter `A_shape<i>`
+  v = sample(name, dist)    → (kernels marked `sampled`) v becomes a scalar parameter: the latent value is an input of the formula
   jnp.sum(e, axis=0) as the returned value of a per-component kernel → the definition is the *term* `e`, and the
                               reduction is recorded as `reduce := "sum_axis0"`
 Anything else raises `Miss`: the committed fallback text of that kernel is kept and the miss is recorded in the
@@ -66,6 +67,7 @@ KERNELS = [
     dict(lean="render_gaussian_fourier_term", file="rendering.py", func="render_gaussian_fourier", reduce="sum_axis0"),
     dict(lean="render_pointsource_fourier", file="rendering.py", func="render_pointsource_fourier"),
     dict(lean="render_tilted_plane_sky", file="priors.py", func="render_tilted_plane_sky"),
+    dict(lean="tilted_plane_sky_sample", file="priors.py", func="sample", cls="TiltedPlaneSkyPrior", drop=["self"], sampled=True),
     dict(lean="restrict_func", file="multiband.py", func="restrict_func", cls="FitMultiBandPoly", drop=["self"]),
     dict(lean="cash_loss_factor", file="loss.py", func="cash_loss", value="factor", drop=["suffix", "mask", "rms"]),
     dict(lean="pseudo_huber_loss_factor", file="loss.py", func="pseudo_huber_loss", value="factor",
@@ -166,6 +168,7 @@ class Translator:
         self.module = module or {}                         # module-level name -> ast node (constant expression or FunctionDef)
         self.depth = 0
         self.inlined = []
+        self.self_attrs = None                             # list: `self.<attr>` becomes a parameter (prior programs)
 
     def fresh(self, name, prefix=""):
         return lean_ident(prefix + name)
@@ -177,6 +180,12 @@ class Translator:
         d = dotted(node)
         if d in PI_NAMES:
             return T("(Transc.pi : α)", atom=True)
+        if (self.self_attrs is not None and isinstance(node, ast.Attribute) and isinstance(node.value, ast.Name)
+                and node.value.id == "self"):
+            # an attribute of the object: a scalar parameter of the translated definition
+            if node.attr not in self.self_attrs:
+                self.self_attrs.append(node.attr)
+            return T(lean_ident(node.attr), atom=True)
         if isinstance(node, ast.Name):
             if node.id in self.scope:
                 ln, kind = self.scope[node.id]
@@ -473,6 +482,7 @@ def translate_kernel(spec, tree, src):
     tr = Translator(src, params, spec.get("complex_params", ()), module_table(tree))
     value = None
     reduce = None
+    sampled = []
     stmts = body_statements(fn)
     for i, s in enumerate(stmts):
         if value is not None:
@@ -486,6 +496,14 @@ def translate_kernel(spec, tree, src):
                 if len(val.args) != 2:
                     raise Miss("factor(...) with other than two positional arguments")
                 value = (tgt.id if isinstance(tgt, ast.Name) else None, tr.ex(val.args[1]))
+                continue
+            # `v = sample(site name, distribution)`: a latent value, i.e. an input of the formula
+            if (spec.get("sampled") and isinstance(tgt, ast.Name) and isinstance(val, ast.Call)
+                    and dotted(val.func) in ("sample", "numpyro.sample") and len(val.args) == 2 and not val.keywords):
+                if tgt.id in tr.scope:
+                    raise Miss("sample site bound to an existing name")
+                sampled.append(tgt.id)
+                tr.scope[tgt.id] = (lean_ident(tgt.id), "re")
                 continue
             # `im = jnp.sum(term, axis=0)` as the last assignment of a per-component kernel
             if (spec.get("reduce") == "sum_axis0" and isinstance(val, ast.Call) and dotted(val.func) in ("jnp.sum", "np.sum")
@@ -513,7 +531,7 @@ def translate_kernel(spec, tree, src):
         raise Miss("no value found")
     if spec.get("reduce") and reduce != spec["reduce"]:
         raise Miss(f"the returned value is not jnp.sum(…, axis=0)")
-    allp = params + tr.extra_params
+    allp = params + sampled + tr.extra_params
     ret = "Cx α" if value[1].cx else "α"
     lines = [f"/-- translated from pysersic/{spec['file']} `{spec['func']}`"
              + (f" (the summand of the final `jnp.sum(…, axis=0)`)" if reduce else "")
@@ -526,15 +544,181 @@ def translate_kernel(spec, tree, src):
     return dict(text="\n".join(lines), params=allp, inlined=tr.inlined, complex=value[1].cx, complex_params=list(spec.get("complex_params", ())), reduce=reduce or "none", line=fn.lineno)
 
 
+# ----------------------------------------------------------------------------------------------------------------
+# prior programs: a method that configures a prior object by a sequence of `prior.set_*_prior(name, …)` calls under
+# `if`s on the profile type becomes a Lean function returning the list of (name, distribution) it installs, in order
+# ----------------------------------------------------------------------------------------------------------------
+
+PROGRAMS = [
+    dict(lean="generate_prior", file="priors.py", cls="SourceProperties", func="generate_prior", obj="prior",
+         switch="profile_type"),
+]
+SETTERS = {
+    "set_gaussian_prior": ("gaussianPrior", ["loc", "scale"], []),
+    "set_uniform_prior": ("uniformPrior", ["low", "high"], []),
+    "set_truncated_gaussian_prior": ("truncGaussianPrior", ["loc", "scale"], ["low", "high"]),
+}
+
+
+class Program:
+    def __init__(self, spec, tree, src):
+        self.spec, self.src = spec, src
+        self.tr = Translator(src, [], module=module_table(tree))
+        self.tr.self_attrs = []
+        self.switch = spec["switch"]
+
+    def str_cond(self, node):
+        """a condition on the profile-type string → Lean Bool text"""
+        sw = self.switch
+        if isinstance(node, ast.BoolOp):
+            op = " && " if isinstance(node.op, ast.And) else " || "
+            return "(" + op.join(self.str_cond(v) for v in node.values) + ")"
+        if isinstance(node, ast.UnaryOp) and isinstance(node.op, ast.Not):
+            return f"(!{self.str_cond(node.operand)})"
+        if isinstance(node, ast.Compare) and len(node.ops) == 1:
+            l, r, op = node.left, node.comparators[0], node.ops[0]
+            is_sw = lambda n: isinstance(n, ast.Name) and n.id == sw
+            is_str = lambda n: isinstance(n, ast.Constant) and isinstance(n.value, str)
+            if isinstance(op, (ast.Eq, ast.NotEq)) and ((is_sw(l) and is_str(r)) or (is_str(l) and is_sw(r))):
+                lit = r.value if is_str(r) else l.value
+                t = f"({sw} == {lean_str(lit)})"
+                return t if isinstance(op, ast.Eq) else f"(!{t})"
+            if isinstance(op, (ast.In, ast.NotIn)) and is_sw(l) and isinstance(r, (ast.List, ast.Tuple)) and all(is_str(e) for e in r.elts):
+                t = "([" + ", ".join(lean_str(e.value) for e in r.elts) + f"].contains {sw})"
+                return t if isinstance(op, ast.In) else f"(!{t})"
+            if isinstance(op, (ast.In, ast.NotIn)) and is_str(l) and is_sw(r):
+                t = f"(Names.hasSub {lean_str(l.value)}.toList {sw}.toList)"
+                return t if isinstance(op, ast.In) else f"(!{t})"
+        raise Miss("condition other than a test on the profile-type string")
+
+    def setter(self, call, ind):
+        name = call.func.attr
+        fn, pos, opt = SETTERS[name]
+        args = list(call.args)
+        kws = {k.arg: k.value for k in call.keywords}
+        if None in kws:
+            raise Miss("**kwargs in a setter call")
+        if not args and "var_name" not in kws:
+            raise Miss("setter without a name")
+        name_node = args.pop(0) if args else kws.pop("var_name")
+        if not (isinstance(name_node, ast.Constant) and isinstance(name_node.value, str)):
+            raise Miss("parameter name is not a string literal")
+        vals = {}
+        for pname in pos + opt:
+            if args:
+                vals[pname] = args.pop(0)
+            elif pname in kws:
+                vals[pname] = kws.pop(pname)
+        if args or kws:
+            raise Miss("unexpected setter argument")
+        parts = []
+        for pname in pos:
+            if pname not in vals:
+                raise Miss(f"setter argument {pname} missing")
+            v = self.tr.ex(vals[pname])
+            if v.cx:
+                raise Miss("complex prior parameter")
+            parts.append(v.p())
+        for pname in opt:
+            if pname not in vals or (isinstance(vals[pname], ast.Constant) and vals[pname].value is None):
+                parts.append("none")
+            else:
+                v = self.tr.ex(vals[pname])
+                parts.append(f"(some {v.p()})")
+        return f"{ind}let acc := acc ++ [({lean_str(name_node.value)}, {fn} {' '.join(parts)})]"
+
+    def block(self, stmts, ind):
+        """statements → Lean lines, each rebinding `acc` (the list installed so far) or a local"""
+        out = []
+        obj = self.spec["obj"]
+        for s in stmts:
+            if isinstance(s, ast.Expr) and isinstance(s.value, ast.Constant) and isinstance(s.value.value, str):
+                continue
+            if isinstance(s, ast.Return):
+                if not (isinstance(s.value, ast.Name) and s.value.id == obj):
+                    raise Miss("return of something other than the prior object")
+                continue
+            if isinstance(s, ast.Assign) and len(s.targets) == 1 and isinstance(s.targets[0], ast.Name):
+                tgt = s.targets[0].id
+                if tgt == obj:
+                    # construction of the prior object: its keyword arguments are not part of the installed list
+                    if not isinstance(s.value, ast.Call):
+                        raise Miss("prior object bound to a non-call")
+                    continue
+                n0 = len(self.tr.lets)
+                self.tr.assign(s.targets[0], s.value)
+                for ln, v in self.tr.lets[n0:]:
+                    out.append(f"{ind}let {ln} := {v.text}")
+                continue
+            if (isinstance(s, ast.Expr) and isinstance(s.value, ast.Call) and isinstance(s.value.func, ast.Attribute)
+                    and isinstance(s.value.func.value, ast.Name) and s.value.func.value.id == obj):
+                if s.value.func.attr not in SETTERS:
+                    raise Miss(f"call {obj}.{s.value.func.attr}")
+                n0 = len(self.tr.lets)
+                line = self.setter(s.value, ind)
+                for ln, v in self.tr.lets[n0:]:
+                    out.append(f"{ind}let {ln} := {v.text}")
+                out.append(line)
+                continue
+            if isinstance(s, ast.If):
+                out += self.ifchain(s, ind)
+                continue
+            raise Miss(f"statement {type(s).__name__} at line {s.lineno}")
+        return out
+
+    def branch(self, stmts, ind):
+        saved = dict(self.tr.scope)
+        lines = self.block(stmts, ind + "  ")
+        self.tr.scope = saved                # names bound in a branch are local to it
+        return [f"{ind}(", *lines, f"{ind}  acc)"]
+
+    def ifchain(self, node, ind):
+        c = self.str_cond(node.test)
+        out = [f"{ind}let acc :=", f"{ind}  if {c} then"]
+        out += self.branch(node.body, ind + "    ")
+        orelse = node.orelse
+        while len(orelse) == 1 and isinstance(orelse[0], ast.If):
+            e = orelse[0]
+            out.append(f"{ind}  else if {self.str_cond(e.test)} then")
+            out += self.branch(e.body, ind + "    ")
+            orelse = e.orelse
+        out.append(f"{ind}  else")
+        out += self.branch(orelse, ind + "    ") if orelse else [f"{ind}    acc"]
+        return out
+
+
+def translate_program(spec, tree, src):
+    fn = find_func(tree, spec["func"], spec.get("cls"))
+    if spec["switch"] not in [a.arg for a in fn.args.args]:
+        raise Miss(f"no parameter {spec['switch']}")
+    pg = Program(spec, tree, src)
+    body = pg.block(body_statements(fn), "  ")
+    attrs = sorted(pg.tr.self_attrs)
+    lines = [f"/-- translated from pysersic/{spec['file']} `{spec.get('cls', '')}.{spec['func']}`: the (name, distribution) "
+             "pairs it installs, in order -/",
+             f"def {spec['lean']} ({spec['switch']} : String) " + " ".join(f"({lean_ident(a)} : α)" for a in attrs)
+             + " : List (String × Dist α) :=",
+             "  let acc : List (String × Dist α) := []", *body, "  acc"]
+    return dict(text="\n".join(lines), params=[spec["switch"]] + attrs, inlined=pg.tr.inlined, complex=False,
+                complex_params=[], reduce="none", line=fn.lineno, program=True)
+
+
+def lean_str(s):
+    return '"' + s.replace("\\", "\\\\").replace('"', '\\"') + '"'
+
+
 HEADER = """/-
 GENERATED by tools/translate.py from the current /repo tree — do not edit.
 The straight-line scalar kernels of pysersic, expression by expression.
 -/
 import PysersicModel.Render.CxOps
+import PysersicModel.Prob.Prior
+import PysersicModel.IO.Names
 
 namespace Pysersic.Gen.K
 open Pysersic
 open Pysersic.Render (Cx)
+open Pysersic.Prob (Dist gaussianPrior uniformPrior truncGaussianPrior)
 
 section
 variable {α : Type} [Add α] [Sub α] [Mul α] [Div α] [Neg α] [NatCast α] [Transc α] [LT α] [DecidableLT α]
@@ -547,6 +731,9 @@ def emit(ks):
     for spec in KERNELS:
         k = ks[spec["lean"]]
         parts.append(k["text"] + "\n\n")
+    parts.append("/-! ### prior programs -/\n\n")
+    for spec in PROGRAMS:
+        parts.append(ks[spec["lean"]]["text"] + "\n\n")
     parts.append("end\n\n")
     parts.append("/-- the translated kernels at `Float`, by name (complex arguments and results as re, im), for the driver -/\n")
     parts.append("def evalF (name : String) (a : Array Float) : Option (List Float) :=\n  match name with\n")
@@ -564,6 +751,14 @@ def emit(ks):
         call = f"{spec['lean']} " + " ".join(args)
         res = f"let z := {call}; [z.re, z.im]" if k["complex"] else f"[{call}]"
         parts.append(f"  | \"{spec['lean']}\" => if a.size = {i} then some ({res}) else none\n")
+    parts.append("  | _ => none\n\n")
+    parts.append("/-- the translated prior programs at `Float`, by name: switch string, scalar arguments in the order of `params` -/\n")
+    parts.append("def evalProgF (name sw : String) (a : Array Float) : Option (List (String × Dist Float)) :=\n  match name with\n")
+    for spec in PROGRAMS:
+        k = ks[spec["lean"]]
+        n = len(k["params"]) - 1
+        call = f"{spec['lean']} sw " + " ".join(f"a[{i}]!" for i in range(n))
+        parts.append(f"  | \"{spec['lean']}\" => if a.size = {n} then some ({call}) else none\n")
     parts.append("  | _ => none\n\n")
     parts.append("/-- how each per-component kernel reduces over its components, and where each translation came from -/\n")
     rows = ", ".join(f'("{s["lean"]}", "{ks[s["lean"]]["reduce"]}")' for s in KERNELS)
@@ -586,6 +781,18 @@ def regenerate(write=True):
             tree, src = trees[spec["file"]]
             ks[spec["lean"]] = translate_kernel(spec, tree, src)
         except Exception as e:  # Miss, SyntaxError, or anything a refactor can throw at the matcher
+            failed[spec["lean"]] = f"{type(e).__name__}: {e}"
+            if spec["lean"] not in fallback:
+                raise
+            ks[spec["lean"]] = fallback[spec["lean"]]
+    for spec in PROGRAMS:
+        try:
+            if spec["file"] not in trees:
+                src = (REPO / "pysersic" / spec["file"]).read_text()
+                trees[spec["file"]] = (ast.parse(src), src)
+            tree, src = trees[spec["file"]]
+            ks[spec["lean"]] = translate_program(spec, tree, src)
+        except Exception as e:
             failed[spec["lean"]] = f"{type(e).__name__}: {e}"
             if spec["lean"] not in fallback:
                 raise
@@ -621,6 +828,9 @@ if __name__ == "__main__":
         for spec in KERNELS:
             src = (REPO / "pysersic" / spec["file"]).read_text()
             ks[spec["lean"]] = translate_kernel(spec, ast.parse(src), src)
+        for spec in PROGRAMS:
+            src = (REPO / "pysersic" / spec["file"]).read_text()
+            ks[spec["lean"]] = translate_program(spec, ast.parse(src), src)
         FALLBACK.write_text(json.dumps(ks, indent=1))
         print("fallback updated")
     rep = regenerate()
